@@ -43,8 +43,11 @@ static void finish_time_stat(struct report_time_stat *ts, unsigned long call)
 	if (variance < 0) /* rounding */
 		variance = 0;
 
-	/* no deviation to speak of when the mean is zero (0/0 would print "-nan%") */
-	ts->stdv = mean > 0 ? sqrt(variance / call) * 100 / mean : 0;
+	/*
+	 * relative standard deviation: sigma / mean (see uftrace-report(1));
+	 * no deviation to speak of when the mean is zero (0/0 would print "-nan%")
+	 */
+	ts->stdv = mean > 0 ? sqrt(variance) * 100 / mean : 0;
 }
 
 static struct uftrace_report_node *find_or_create_node(struct rb_root *root, const char *name,
